@@ -153,6 +153,7 @@ type stepSpec struct {
 	edits    []edit
 	onEndErr bool
 	cancel   bool
+	cancelLate bool // Cancel() is called while the on-end callbacks run (after rebuildImpl's only check)
 }
 
 type scenario struct {
@@ -284,6 +285,10 @@ func runScenario(sc *scenario, st *Stats, enc *encoder) string {
 				if !isIOError(e.Text) {
 					errsAtEnd++ // errors present when the write phase started
 				}
+			}
+			if sc.steps[cur].cancelLate && ctx != nil {
+				go ctx.Cancel() // returns only when this build has ended
+				time.Sleep(30 * time.Millisecond)
 			}
 			if sc.steps[cur].onEndErr {
 				return api.OnEndResult{Errors: []api.Message{{Text: "on-end failure"}}}, nil
@@ -737,6 +742,10 @@ func oracle(sc *scenario, root string, i int, ob *stepObs, st *Stats, write, all
 			}
 		}
 	}
+	if sc.steps[i].cancelLate && len(created)+len(modified) > 0 {
+		// known: the cancel flag is not read after the check that follows Compile
+		failKnown("cancel-during-build-but-files-written", tagged("cancel-lands-after-the-check"), diff, "a build during which Cancel() was called writes nothing")
+	}
 	if ob.onEnd && len(created)+len(modified) > 0 {
 		// known, by design upstream: on-end callbacks run after the write phase
 		failKnown("onend-error-build-wrote-files", tagged("on-end-plugin-error-after-write"), diff, "a build that reports errors creates or modifies no file")
@@ -1127,6 +1136,13 @@ func fixedScenarios() []*scenario {
 	}
 	k.steps = []stepSpec{{label: "build"}}
 	out = append(out, k)
+	// M: Cancel() lands after the only check that follows Compile
+	m := &scenario{kind: "finding-M", useCtx: true, files: map[string]string{"/src/a.js": "console.log(1)\n"}, desc: "ctx entry src/a.js outdir=out write=true; Cancel() called while the on-end callbacks run"}
+	m.opts = func(string) api.BuildOptions {
+		return api.BuildOptions{EntryPoints: []string{"src/a.js"}, Outdir: "out", Write: true}
+	}
+	m.steps = []stepSpec{{label: "build-cancelled-late", cancelLate: true}}
+	out = append(out, m)
 	// G: symbolic links
 	g := &scenario{kind: "finding-G", files: map[string]string{"/src/a.js": "export let a = 1 // ORIGINAL\n"},
 		symlinks: [][2]string{{"/out", "src"}}, dirLinks: [][2]string{{"/out", "/src"}}, desc: "entry src/a.js outdir=out where out -> src (symlink)"}
@@ -1400,6 +1416,58 @@ func allowCases(st *Stats) []string {
 	return items
 }
 
+// Cancel() racing with a build: whatever the timing, either the build reports
+// the cancellation and the tree is unchanged, or it does not and every reported
+// output is on disk.
+func cancelRace(r *Rng, st *Stats, trials int) {
+	for t := 0; t < trials; t++ {
+		tmp, err := os.MkdirTemp("", "verif-c17-")
+		if err != nil {
+			panic(err)
+		}
+		root, _ := filepath.EvalSymlinks(tmp)
+		os.MkdirAll(root+"/src", 0o755)
+		var eps []string
+		for i := 0; i < 40; i++ {
+			os.WriteFile(fmt.Sprintf("%s/src/e%d.js", root, i), []byte(fmt.Sprintf("import './lib.js'\nconsole.log(%d)\n", i)), 0o644)
+			eps = append(eps, fmt.Sprintf("src/e%d.js", i))
+		}
+		os.WriteFile(root+"/src/lib.js", []byte(strings.Repeat("console.log('lib')\n", 200)), 0o644)
+		before := takeSnap(root)
+		ctx, cerr := api.Context(api.BuildOptions{AbsWorkingDir: root, EntryPoints: eps, Outdir: "out", Bundle: true, Write: true, LogLevel: api.LogLevelSilent})
+		if cerr != nil {
+			panic(cerr.Error())
+		}
+		done := make(chan api.BuildResult)
+		go func() { done <- ctx.Rebuild() }()
+		time.Sleep(time.Duration(r.Intn(6000)) * time.Microsecond)
+		ctx.Cancel()
+		res := <-done
+		ctx.Dispose()
+		after := takeSnap(root)
+		canceled := false
+		for _, e := range res.Errors {
+			canceled = canceled || strings.Contains(e.Text, "The build was canceled")
+		}
+		changed := len(after.files) != len(before.files) || len(after.dirs) != len(before.dirs)
+		missing := 0
+		for _, f := range res.OutputFiles {
+			if got, ok := after.files[strings.TrimPrefix(f.Path, root)]; !ok || !bytes.Equal(got, f.Contents) {
+				missing++
+			}
+		}
+		in := map[string]interface{}{"scenario": "none", "options": "ctx 40 entries outdir=out bundle write=true; Cancel() after a random delay", "trial": t}
+		switch {
+		case canceled && changed:
+			st.Fail("cancelled-build-wrote-files", in, fmt.Sprintf("%d files after, %d before", len(after.files), len(before.files)), "tree unchanged")
+		case !canceled && len(res.Errors) == 0 && missing > 0:
+			st.Fail("reported-output-not-on-disk", in, fmt.Sprintf("%d of %d reported outputs missing", missing, len(res.OutputFiles)), "all written")
+		}
+		st.Note(fmt.Sprintf("cancel-race:canceled=%v,wrote=%v", canceled, changed), fmt.Sprint(t), true)
+		os.RemoveAll(tmp)
+	}
+}
+
 // ---------------------------------------------------------------- the path layer
 
 var pathSegs = []string{"", ".", "..", "a", "b.js", "Sub", "index.js", "index", "...js", "..js", ".hidden", "x.y.z", "_.._", "src", "out", "c.d", "e"}
@@ -1545,7 +1613,91 @@ func pathCases(r *Rng, n int, st *Stats, cf *CoqFile) {
 			}
 		}
 	}
+	// explicit output paths of entry points ({in, out})
+	customs := []string{"x/y", "../../esc", "a.b", filepath.Join(root, "out/deep/q"), filepath.Join(root, "elsewhere/z"), "./k", "sub/../w"}
+	for i := 0; i < ne/2; i++ {
+		entry := entries[r.Intn(len(entries))]
+		outdir := []string{"out", "src", "out/deep", "."}[r.Intn(4)]
+		outbase := []string{"src", "other", "."}[r.Intn(3)]
+		t := e2eTemplates[r.Intn(len(e2eTemplates))]
+		cu := customs[r.Intn(len(customs))]
+		o := api.BuildOptions{AbsWorkingDir: root, EntryPointsAdvanced: []api.EntryPoint{{InputPath: entry, OutputPath: cu}}, Outdir: outdir, Outbase: outbase, EntryNames: t, LogLevel: api.LogLevelSilent, Write: false}
+		res := api.Build(o)
+		if len(res.Errors) > 0 || len(res.OutputFiles) != 1 {
+			continue
+		}
+		got := res.OutputFiles[0].Path
+		outs = append(outs, fmt.Sprintf("(%s,%s,%s,%s,%s,%s,%s)", cpath(t), cpath(filepath.Join(root, outdir)), cpath(filepath.Join(root, outbase)), cpath(filepath.Join(root, entry)), cpath(cu), cpath(".js"), cpath(got)))
+		st.Note("path:entry-output-explicit", fmt.Sprint(entry, outdir, outbase, t, cu), true)
+		hasDotDot := false
+		for _, seg := range strings.Split(strings.ReplaceAll(t, "\\", "/"), "/") {
+			hasDotDot = hasDotDot || seg == ".."
+		}
+		if !under(filepath.Join(root, outdir), got) && !hasDotDot {
+			st.Fail("output-outside-outdir", map[string]interface{}{"scenario": "none", "entry": entry, "out": cu, "outdir": outdir, "outbase": outbase, "entryNames": t}, got, "inside "+filepath.Join(root, outdir))
+		}
+	}
 	cf.AddCases("outpath_cases", "path * path * path * path * path * path * path", "check_outpath", outs)
+
+	// file-loader assets and shared chunks
+	assets := []string{"src/data.txt", "src/sub/pic.x.png", "other/d.txt", "src/sub/style.module.css", "src/noext"}
+	for _, a := range assets {
+		os.MkdirAll(filepath.Dir(filepath.Join(root, a)), 0o755)
+		os.WriteFile(filepath.Join(root, a), []byte("asset "+a), 0o644)
+	}
+	os.WriteFile(filepath.Join(root, "src/dyn1.js"), []byte("import './shared.js'\nexport let a = 1\n"), 0o644)
+	os.WriteFile(filepath.Join(root, "src/dyn2.js"), []byte("import './shared.js'\nexport let b = 2\n"), 0o644)
+	os.WriteFile(filepath.Join(root, "src/shared.js"), []byte("console.log('shared')\n"), 0o644)
+	os.WriteFile(filepath.Join(root, "src/split.js"), []byte("import('./dyn1.js'); import('./dyn2.js')\n"), 0o644)
+	assetTemplates := []string{"", "[name]-[hash]", "[dir]/[name]", "assets/[name].[hash]", "[ext]/[name]", "[dir]/[name]-[hash]", "../up/[name]", "[hash]"}
+	hashRe := regexp.MustCompile(`[A-Z2-7]{8}`)
+	var assetItems, chunkItems []string
+	for i := 0; i < ne/2; i++ {
+		a := assets[r.Intn(len(assets))]
+		outdir := []string{"out", "src", "out/deep"}[r.Intn(3)]
+		outbase := []string{"src", "other", ".", "src/sub"}[r.Intn(4)]
+		t := assetTemplates[r.Intn(len(assetTemplates))]
+		rel, _ := filepath.Rel(filepath.Join(root, "src"), filepath.Join(root, a))
+		os.WriteFile(filepath.Join(root, "src/useasset.js"), []byte("import u from './"+rel+"'\nconsole.log(u)\n"), 0o644)
+		o := api.BuildOptions{AbsWorkingDir: root, EntryPoints: []string{"src/useasset.js"}, Outdir: outdir, Outbase: outbase, AssetNames: t, Bundle: true, LogLevel: api.LogLevelSilent, Write: false,
+			Loader: map[string]api.Loader{".txt": api.LoaderFile, ".png": api.LoaderFile, ".css": api.LoaderFile, ".module.css": api.LoaderFile, "": api.LoaderFile}}
+		res := api.Build(o)
+		if len(res.Errors) > 0 {
+			continue
+		}
+		for _, f := range res.OutputFiles {
+			if string(f.Contents) == "asset "+a {
+				h := hashRe.FindString(filepath.Base(f.Path))
+				if !strings.Contains(t, "[hash]") && t != "" {
+					h = ""
+				}
+				assetItems = append(assetItems, fmt.Sprintf("(%s,%s,%s,%s,%s,%s)", cpath(t), cpath(filepath.Join(root, outdir)), cpath(filepath.Join(root, outbase)), cpath(filepath.Join(root, a)), cpath(h), cpath(f.Path)))
+				st.Note("path:asset-output", fmt.Sprint(a, outdir, outbase, t), true)
+				if !under(filepath.Join(root, outdir), f.Path) && !strings.Contains(t, "..") {
+					st.Fail("output-outside-outdir", map[string]interface{}{"scenario": "none", "asset": a, "outdir": outdir, "outbase": outbase, "assetNames": t}, f.Path, "inside "+filepath.Join(root, outdir))
+				}
+			}
+		}
+		// shared chunk of a code-splitting build
+		ct := assetTemplates[r.Intn(len(assetTemplates))]
+		if !strings.Contains(ct, "[hash]") && ct != "" {
+			continue // two chunks would collide
+		}
+		o2 := api.BuildOptions{AbsWorkingDir: root, EntryPoints: []string{"src/split.js"}, Outdir: outdir, ChunkNames: ct, Bundle: true, Splitting: true, Format: api.FormatESModule, LogLevel: api.LogLevelSilent, Write: false}
+		res2 := api.Build(o2)
+		if len(res2.Errors) > 0 {
+			continue
+		}
+		for _, f := range res2.OutputFiles {
+			if strings.Contains(string(f.Contents), "console.log(\"shared\")") && !strings.Contains(filepath.Base(f.Path), "split") {
+				h := hashRe.FindString(filepath.Base(f.Path))
+				chunkItems = append(chunkItems, fmt.Sprintf("(%s,%s,%s,%s,%s)", cpath(ct), cpath(filepath.Join(root, outdir)), cpath(h), cpath(".js"), cpath(f.Path)))
+				st.Note("path:chunk-output", fmt.Sprint(outdir, ct), true)
+			}
+		}
+	}
+	cf.AddCases("assetpath_cases", "path * path * path * path * path * path", "check_assetpath", assetItems)
+	cf.AddCases("chunkpath_cases", "path * path * path * path * path", "check_chunkpath", chunkItems)
 }
 
 // ---------------------------------------------------------------- main
@@ -1564,6 +1716,7 @@ func runC17(seed uint64, n int, tier string, outDir string) []*Stats {
 	cf.AddCases("compile_cases", "compile_case", "check_compile", comp)
 	cf.AddCases("allow_cases", "Z * bool * bool * bool", "check_allow", allowCases(st))
 	pathCases(r, n, st, cf)
+	cancelRace(r, st, 4+n/20)
 
 	var hist []string
 	add := func(sc *scenario) {
